@@ -304,6 +304,11 @@ def informats(ctx, shard, nshards):
         real = "%Y%m%d" if real_compact else "%%d%s%%m%s%%Y" % (seps[0], seps[0])
         fmts = ["%%d%s%%m%s%%Y" % (sp, sp) for sp in seps[1:]]
         fmts.insert(rnd.randrange(len(fmts) + 1), real)
+        if not real_compact and rnd.random() < 0.4:
+            # formats that start from the same literal as the real one but cannot read the lines
+            # (month / weekday by name), given ahead of it
+            for dec in ("%%d%s%%b%s%%Y" % (seps[0], seps[0]), "%%a%s%%d%s%%Y" % (seps[0], seps[0]))[:rnd.randrange(1, 3)]:
+                fmts.insert(rnd.randrange(fmts.index(real) + 1), dec)
         if real_compact:
             mk = lambda n: "%04d%02d%02d" % R.ymd(n)
         else:
